@@ -690,15 +690,18 @@ Definition dd_expression : M :=
     consume_n 2 ;;; c0' <- curr ;; c1' <- peek 1 ;; main c0' c1'
   else main c0 c1.
 
+(* int old_pos = dd->pos; if (dd_type(dd) < 0) { dd->pos = old_pos; ... } *)
+Definition restore_on_fail (m : M) : M := fun st =>
+  match m st with
+  | R r st' => if r <? 0 then R r (set_pos st' (pos st)) else R r st'
+  | x => x
+  end.
+
 Definition func_args_loop (c : Z) : M :=       (* body of LFuncArgs c; value = c after the loop *)
   if c =? ch "E" then ret c else
-  fun st =>
-    match rec FType st with
-    | R r st' =>
-        if r <? 0 then R c (set_pos st' (pos st))
-        else (c' <- curr ;; rec (LFuncArgs c')) st'
-    | x => x
-    end.
+  r <- restore_on_fail (rec FType) ;;
+  if r <? 0 then ret c else
+  c' <- curr ;; rec (LFuncArgs c').
 
 Definition dd_function_type : M :=
   e <- eof ;;
